@@ -111,7 +111,7 @@ func parsePhaseFuncs(w *World) []*ssa.Function {
 			if g == nil || in[g] || g.Pkg != w.Parser || g.Blocks == nil || !w.isSubjectFunc(g) {
 				return
 			}
-			if rn := recvNamedCore(g); rn != "" && rn != "PacketDslVisitorImpl" && rn != "SyntaxErrorListener" {
+			if rn := recvNamedCore(g); strings.HasSuffix(rn, "Generator") || strings.HasSuffix(rn, "Formattor") || strings.HasSuffix(rn, "Formatter") {
 				return
 			}
 			in[g] = true
@@ -588,6 +588,12 @@ func c12Namespaces(w *World, r *Report) {
 					ok = true
 					break
 				}
+				if !ok {
+					// the insertion is a "declare" helper: the membership test and the diagnostic are at its call sites
+					if why := nsGuardedAtCallSites(w, fn, x, funcs); why != "" {
+						ok = true
+					}
+				}
 				if ok {
 					r.pass(rule, key, w.instrPos(ins), "guarded by membership test; duplicate reports the current declaration's line")
 				} else {
@@ -688,6 +694,140 @@ func c12Namespaces(w *World, r *Report) {
 	r.floor(rule, 6)
 }
 
+// nsGuardedAtCallSites: fn inserts (key derived from one of its parameters) into a name set kept in a record; every call site of fn
+// in the parse phase is dominated by the not-present edge of a membership predicate on the same set and the same name, whose present
+// edge reports a diagnostic.
+func nsGuardedAtCallSites(w *World, fn *ssa.Function, mu *ssa.MapUpdate, phase []*ssa.Function) string {
+	mapKey := structFieldKey(mu.Map)
+	if mapKey == "" {
+		return ""
+	}
+	// the key: parameter p itself, or p.Name
+	pidx, suffix := -1, ""
+	k := stripIdentity(mu.Key)
+	for i, p := range fn.Params {
+		if k == ssa.Value(p) {
+			pidx = i
+		}
+		if ld, ok := k.(*ssa.UnOp); ok {
+			if fa, ok := ld.X.(*ssa.FieldAddr); ok && stripIdentity(fa.X) == ssa.Value(p) {
+				_, f, _, _ := fieldOf(fa)
+				pidx, suffix = i, "."+f
+			}
+		}
+	}
+	if pidx < 0 {
+		return ""
+	}
+	desc := func(v ssa.Value, suffix string) string {
+		v = stripIdentity(v)
+		if suffix == "" {
+			// x.Name -> "<value id>.Name"
+			if ld, ok := v.(*ssa.UnOp); ok {
+				if fa, ok := ld.X.(*ssa.FieldAddr); ok {
+					_, f, _, _ := fieldOf(fa)
+					return fmt.Sprintf("%p.%s", stripIdentity(fa.X), f)
+				}
+			}
+			return fmt.Sprintf("%p", v)
+		}
+		return fmt.Sprintf("%p%s", v, suffix)
+	}
+	// membership predicates: bool functions returning the comma-ok of a lookup in the same set keyed by a parameter
+	type pred struct {
+		fn   *ssa.Function
+		pidx int
+	}
+	var preds []pred
+	for _, q := range phase {
+		res := q.Signature.Results()
+		if res.Len() != 1 || !types.Identical(res.At(0).Type().Underlying(), types.Typ[types.Bool]) {
+			continue
+		}
+		forEachInstr(q, func(_ *ssa.BasicBlock, ins ssa.Instruction) {
+			lk, ok := ins.(*ssa.Lookup)
+			if !ok || !lk.CommaOk || structFieldKey(lk.X) != mapKey {
+				return
+			}
+			for i, p := range q.Params {
+				if stripIdentity(lk.Index) == ssa.Value(p) {
+					preds = append(preds, pred{q, i})
+				}
+			}
+		})
+	}
+	if len(preds) == 0 {
+		return ""
+	}
+	nSites := 0
+	for _, caller := range phase {
+		bad := false
+		forEachInstr(caller, func(b *ssa.BasicBlock, ins ssa.Instruction) {
+			c, ok := ins.(ssa.CallInstruction)
+			if !ok || c.Common().StaticCallee() != fn || pidx >= len(c.Common().Args) {
+				return
+			}
+			nSites++
+			want := desc(c.Common().Args[pidx], suffix)
+			guarded := false
+			for _, bb := range caller.Blocks {
+				cond := branchCond(bb)
+				if cond == nil {
+					continue
+				}
+				neg := false
+				cv := cond
+				for {
+					if u, ok := cv.(*ssa.UnOp); ok && u.Op == token.NOT {
+						neg = !neg
+						cv = u.X
+						continue
+					}
+					break
+				}
+				pc, ok := cv.(*ssa.Call)
+				if !ok {
+					continue
+				}
+				for _, pr := range preds {
+					if pc.Call.StaticCallee() != pr.fn || pr.pidx >= len(pc.Call.Args) {
+						continue
+					}
+					if desc(pc.Call.Args[pr.pidx], "") != want {
+						continue
+					}
+					present, absent := 0, 1
+					if neg {
+						present, absent = 1, 0
+					}
+					if !edgeDominates(bb, absent, b) {
+						continue
+					}
+					for _, b3 := range caller.Blocks {
+						if edgeDominates(bb, present, b3) {
+							for _, i3 := range b3.Instrs {
+								if isAddSyntaxError(i3) {
+									guarded = true
+								}
+							}
+						}
+					}
+				}
+			}
+			if !guarded {
+				bad = true
+			}
+		})
+		if bad {
+			return ""
+		}
+	}
+	if nSites == 0 {
+		return ""
+	}
+	return "guarded at every call site"
+}
+
 // lineSource: where does the Line of the SyntaxError passed to AddSyntaxError come from: "earlier" if it derives from the looked-up entry.
 func lineSource(diag ssa.CallInstruction, lk *ssa.Lookup) string {
 	args := diag.Common().Args
@@ -747,9 +887,48 @@ func derivesFrom(v ssa.Value, src ssa.Value, depth int) bool {
 }
 
 // fieldCollectors: model-visitor functions that append declared fields (results of the VisitField* routines) to a field list.
+// appendsFieldParam: the parameter indices of fn whose *model.Field value fn appends to a slice (a "declare" helper).
+func appendsFieldParam(fn *ssa.Function) map[int]bool {
+	out := map[int]bool{}
+	forEachInstr(fn, func(b *ssa.BasicBlock, ins ssa.Instruction) {
+		c, ok := ins.(*ssa.Call)
+		if !ok {
+			return
+		}
+		bi, ok := c.Call.Value.(*ssa.Builtin)
+		if !ok || bi.Name() != "append" || len(c.Call.Args) < 2 {
+			return
+		}
+		sl, ok := c.Type().Underlying().(*types.Slice)
+		if !ok || !typeIs(sl.Elem(), modPath+"/internal/model", "Field") {
+			return
+		}
+		// appended element(s): the variadic slice's stores
+		if vs, ok := c.Call.Args[1].(*ssa.Slice); ok {
+			if al, ok := vs.X.(*ssa.Alloc); ok {
+				for _, ref := range *al.Referrers() {
+					if ia, ok := ref.(*ssa.IndexAddr); ok {
+						for _, r2 := range *ia.Referrers() {
+							if st, ok := r2.(*ssa.Store); ok {
+								for i, p := range fn.Params {
+									if stripIdentity(st.Val) == ssa.Value(p) {
+										out[i] = true
+									}
+								}
+							}
+						}
+					}
+				}
+			}
+		}
+	})
+	return out
+}
+
 func fieldCollectors(w *World) []*ssa.Function {
 	var out []*ssa.Function
-	for _, fn := range parsePhaseFuncs(w) {
+	phase := parsePhaseFuncs(w)
+	for _, fn := range phase {
 		if recvNamedCore(fn) != "PacketDslVisitorImpl" {
 			continue
 		}
@@ -757,6 +936,15 @@ func fieldCollectors(w *World) []*ssa.Function {
 		forEachInstr(fn, func(b *ssa.BasicBlock, ins ssa.Instruction) {
 			c, ok := ins.(*ssa.Call)
 			if !ok {
+				return
+			}
+			if g := c.Call.StaticCallee(); g != nil && g.Pkg == w.Parser && g.Blocks != nil {
+				// hands a declared field to a helper that appends it to the list of fields
+				for i := range appendsFieldParam(g) {
+					if i < len(c.Call.Args) && isFieldPtr(c.Call.Args[i].Type()) {
+						collects = true
+					}
+				}
 				return
 			}
 			bi, ok := c.Call.Value.(*ssa.Builtin)
@@ -1332,11 +1520,15 @@ func c12Options(w *World, r *Report) {
 	for _, f := range mp.Syntax {
 		ast.Inspect(f, func(n ast.Node) bool {
 			vs, ok := n.(*ast.ValueSpec)
-			if !ok || len(vs.Names) != 1 || vs.Names[0].Name != "options" || len(vs.Values) != 1 {
+			if !ok || len(vs.Names) != 1 || len(vs.Values) != 1 {
 				return true
 			}
 			cl, ok := vs.Values[0].(*ast.CompositeLit)
 			if !ok {
+				return true
+			}
+			// the option table: a package-level map[string][]string (whatever it is called)
+			if tv, ok := mp.TypesInfo.Types[cl]; !ok || tv.Type == nil || tv.Type.Underlying().String() != "map[string][]string" {
 				return true
 			}
 			foundTable = true
@@ -1412,6 +1604,24 @@ func c12Options(w *World, r *Report) {
 		return out
 	}
 	if nc != nil {
+		// constant-keyed lookups in NewConfiguration and the model helpers it calls
+		seenFn := map[*ssa.Function]bool{nc: true}
+		work := []*ssa.Function{nc}
+		for i := 0; i < len(work) && i < 32; i++ {
+			forEachInstr(work[i], func(_ *ssa.BasicBlock, ins ssa.Instruction) {
+				switch x := ins.(type) {
+				case *ssa.Lookup:
+					if s, ok := constString(x.Index); ok {
+						consumed[s] = true
+					}
+				case ssa.CallInstruction:
+					if g := x.Common().StaticCallee(); g != nil && g.Pkg == w.Model && g.Blocks != nil && !seenFn[g] {
+						seenFn[g] = true
+						work = append(work, g)
+					}
+				}
+			})
+		}
 		forEachInstr(nc, func(b *ssa.BasicBlock, ins ssa.Instruction) {
 			switch x := ins.(type) {
 			case *ssa.Lookup:
